@@ -164,6 +164,13 @@ Definition spec_step (before : world) (o : op) (ok : bool) (v : N) (after : worl
   | OTick => if asset_state_equiv before after then 0 else 1
   end.
 
+(* a whole transaction group, judged from the committed state before and after it (the
+   intermediate states of a group are not observable): supply, and all-or-nothing *)
+Definition spec_group (before : world) (ok : bool) (after : world) : N :=
+  if negb (supply_ok after) then 1 else
+  if negb ok then (if asset_state_equiv before after then 0 else 1) else 0.
+Definition res_ok_l (r : res (list N)) : bool := match r with Ok _ => true | Err _ => false end.
+
 (* ------------------------------------------------------------------ decoding *)
 Definition zb (z : Z) : bool := negb (z =? 0)%Z.
 
@@ -246,9 +253,65 @@ Definition nontrivial_op (o : op) : bool :=
   | OTick => false
   end.
 
+(* observation of a group: (code failidx (v...) (holdings) (params) (creators) (accounts)) *)
+Definition as_gobs (ctr : N) (t : term) : option (N * N * list N * world) :=
+  match t with
+  | TL [TZ code; TZ k; vs; TL hs; TL ps; TL cs; TL acs] =>
+      match as_N_list vs, map_opt as_hold hs, map_opt as_par ps, map_opt as_cre cs, map_opt as_acct acs with
+      | Some vs, Some h, Some p, Some c, Some ac => Some (Z.to_N code, Z.to_N k, vs, mkW h p c ac ctr)
+      | _, _, _, _, _ => None
+      end
+  | _ => None
+  end.
+
+Definition do_group (maxassets : N) (c : cst) (idx : N) (ops : list term) (obst : term) : cst :=
+  let bad := mkCst (c_model c) (c_impl c) (c_spec c) (c_corr c) (c_nt c) true (c_first c) in
+  match map_opt as_op ops with
+  | None => bad
+  | Some g =>
+      let '(m', r, k) := gstep maxassets (c_model c) g in
+      match as_gobs (w_counter m') obst with
+      | None => bad
+      | Some (code, ik, ivs, iw) =>
+          let good := match r with
+                      | Ok vs => (code =? 0) && list_eqb N.eqb vs ivs
+                      | Err e => (code =? e) && (ik =? k)
+                      end && world_matches m' iw in
+          let sp := spec_group (c_impl c) (code =? 0) iw in
+          mkCst m' iw (worse (c_spec c) sp) (c_corr c && good)
+                (if (code =? 0) && existsb nontrivial_op g then c_nt c + 1 else c_nt c) false
+                (if c_corr c && negb good
+                 then TL [tn idx; TS "group"; tn (match r with Ok _ => 0 | Err e => e end); tn k; dump_world m']
+                 else if (c_spec c =? 0) && negb (sp =? 0) then TL [tn idx; TS "gspec"; tn sp]
+                 else c_first c)
+      end
+  end.
+
+(* the state reached by a SECOND evaluator that replays the committed groups: (fin H P C A) *)
+Definition do_final (c : cst) (idx : N) (obst : term) : cst :=
+  let bad := mkCst (c_model c) (c_impl c) (c_spec c) (c_corr c) (c_nt c) true (c_first c) in
+  match obst with
+  | TL [TL hs; TL ps; TL cs; TL acs] =>
+      match map_opt as_hold hs, map_opt as_par ps, map_opt as_cre cs, map_opt as_acct acs with
+      | Some h, Some p, Some cr, Some ac =>
+          let iw := mkW h p cr ac (w_counter (c_model c)) in
+          let good := world_matches (c_model c) iw in
+          let sp := if supply_ok iw then 0 else 1 in
+          mkCst (c_model c) (c_impl c) (worse (c_spec c) sp) (c_corr c && good) (c_nt c) false
+                (if c_corr c && negb good then TL [tn idx; TS "final"; dump_world (c_model c)]
+                 else if (c_spec c =? 0) && negb (sp =? 0) then TL [tn idx; TS "fspec"] else c_first c)
+      | _, _, _, _ => bad
+      end
+  | _ => bad
+  end.
+
 Definition do_op (maxassets : N) (c : cst) (idx : N) (ot obst : term) : cst :=
   if c_bad c then c else
   let bad := mkCst (c_model c) (c_impl c) (c_spec c) (c_corr c) (c_nt c) true (c_first c) in
+  match ot with
+  | TL (TS "grp" :: ops) => do_group maxassets c idx ops obst
+  | TL [TS "fin"] => do_final c idx obst
+  | _ =>
   match as_op ot with
   | None => bad
   | Some o =>
@@ -265,6 +328,7 @@ Definition do_op (maxassets : N) (c : cst) (idx : N) (ot obst : term) : cst :=
                  else if (c_spec c =? 0) && negb (sp =? 0) then TL [tn idx; TS "spec"; tn sp]
                  else c_first c)
       end
+  end
   end.
 
 Fixpoint do_ops (maxassets : N) (c : cst) (idx : N) (ops obs : list term) : cst :=
